@@ -39,15 +39,20 @@ PROPS = {
                    "requests of the model of HttpReader::read_chunks are exactly the maximal runs of adjacent chunks (independent spec "
                    "maximalRuns, itself proved lossless, contiguous and maximal), one request per run with first-byte/last-byte bounds; "
                    "tied to the code by differential runs of the real HttpReader against a scripted HTTP server (every subset of small "
-                   "archives exhaustively + random lists).",
+                   "archives exhaustively + random lists).  clone_over_http_requests_runs_of_missing_chunks composes it with C06 for a whole clone: "
+                   "the wire of a successful clone from an honest server is the two header requests and then one request per maximal run of "
+                   "adjacent missing chunks; tied to the code by whole CLI clones against a scripted server whose request log is compared "
+                   "with the model's remote reader and with a chunker-free oracle (suite c07_wire).",
         level_note="Trusted: Lean kernel; hand-written model of http_reader.rs/http_range_request.rs tied by correspondence only; "
                    "reqwest/hyper not modelled; hypothesis: no transfer failure, chunk sizes >= 1, honest server.",
         technique="Lean 4 proof (refinement of the reader state machine to a run-level spec, induction over script and chunk list) + differential correspondence",
         design_ref="DESIGN.md 5/C07",
         module="Bita.Props.C07",
         level="proof",
-        required_theorems=["requests_are_maximal_runs", "maximalRuns_spec", "runRequest_bounds"],
-        suites=dict(quick=[("l1", "c07")], thorough=[("l1", "c07")]),
+        required_theorems=["requests_are_maximal_runs", "maximalRuns_spec", "runRequest_bounds",
+                           "clone_over_http_requests_runs_of_missing_chunks"],
+        suites=dict(quick=[("l1", "c07"), ("py", "c07_wire")], thorough=[("l1", "c07"), ("py", "c07_wire")]),
+        needs_bita=True,
         rule="real HttpReader::read_chunks against a scripted loopback HTTP server: every non-empty subset of the "
              "descriptors of small random layouts (exhaustive per layout) plus random larger/unordered lists, random "
              "body fragmentation; compared: ordered (offset,size) of the Range requests, the raw Range header text "
